@@ -6,7 +6,7 @@ PROP = {
     "bin": "urlhist",
     "harness_args": ["C03"],
     "profiles": ["dev"],
-    "rule": "streams: corpus of histories; exhaustive (every start URL of a 43-URL pool x every operation kind x every argument of an 85-string delimiter-rich pool, one step each); random histories of 1-8 mutating calls (Url::set_*, set_ip_host, path_segments_mut sessions, quirks setters) from pool or randomly generated parsed URLs. After steps the model and the implementation are compared on: the whole record (serialization, 7 offsets, host kind, port) and status, all 16 read accessors, the 10 quirks getters, and (sampled) all 16 x 18 Position range forms incl. panics. wf_b is evaluated by the model on every observed record (histogram key wf_b:*). Non-trivial = every step/observation (each has a non-empty URL); distinct = distinct request lines.",
+    "rule": "streams: corpus of histories; exhaustive (every start URL of a 43-URL pool x every operation kind x every argument of an 91-string delimiter-rich pool, one step each); random histories of 1-8 mutating calls (Url::set_*, set_ip_host, path_segments_mut sessions, quirks setters) from pool or randomly generated parsed URLs. After steps the model and the implementation are compared on: the whole record (serialization, 7 offsets, host kind, port) and status, all 16 read accessors, the 10 quirks getters, and (sampled) all 16 x 18 Position range forms incl. panics. wf_b is evaluated by the model on every observed record (histogram key wf_b:*). Non-trivial = every step/observation (each has a non-empty URL); distinct = distinct request lines.",
     "trusted_base": [
         "Model/Parser.v, Model/Setters.v, Model/UrlRecord.v are hand-written models of url/src/{parser,lib,slicing,quirks,path_segments}.rs tied to the code only by the correspondence",
         "host parsing/serialisation inside the URL model is Model/Host.v (property C09); only IDNA ToASCII (idna::domain_to_ascii_cow with AsciiDenyList::URL, as host.rs calls it) is answered by the real idna crate through an oracle query",
